@@ -60,49 +60,86 @@ def edges_of(n):
     return list(itertools.combinations(range(n), 2))
 
 
-def candidate(seed, d, n, cell, t):
-    """t-th candidate placement: n generic points in a cube of edge w in {1.6,2.4,3.2,4.2} centred alternately on the
-    cell corner (contacts through the periodic faces) and on the cell centre, wrapped into the cell"""
-    H = cell_for(d, cell)
-    w = (1.6, 2.4, 3.2, 4.2)[t % 4]
-    g = np.array(A.generic_points(seed, n, d, tag=f"c11_{d}{n}_{t}_"))
-    r = (g - 0.5) * w
-    s = np.linalg.solve(H.T, r.T).T + (0.0 if (t // 4) % 2 == 0 else 0.5)
-    s = s - np.floor(s)
-    return s @ H, H
+_S3 = 3 ** 0.5
+# planar templates, one per isomorphism class of graphs on n vertices: contact pairs 1.1-1.65 apart, all others >= 2.4
+TEMPLATES = {
+    2: [[(0, 0), (2.8, 0.3)],  # no contact
+        [(0, 0), (1.5, 0)]],  # contact
+    3: [[(0, 0), (2.7, 0), (1.3, 2.8)],  # empty
+        [(0, 0), (1.5, 0), (0.7, 2.9)],  # one edge
+        [(0, 0), (1.5, 0), (2.6, 1.1)],  # path
+        [(0, 0), (1.5, 0), (0.75, 0.75 * _S3)]],  # triangle
+    4: [[(0, 0), (2.6, 0), (0, 2.6), (2.6, 2.6)],  # empty
+        [(0, 0), (1.5, 0), (0, 2.8), (2.8, 2.8)],  # one edge
+        [(0, 0), (1.5, 0), (3.0, 0.4), (1.5, 2.9)],  # path on 3 + isolated
+        [(0, 0), (1.5, 0.3), (0.2, 2.8), (1.6, 3.0)],  # two disjoint edges
+        [(0, 0), (1.5, 0), (2.3, 1.3), (1.5, 2.6)],  # path on 4
+        [(0, 0), (0, 1.6), (-0.8 * _S3, -0.8), (0.8 * _S3, -0.8)],  # star
+        [(0, 0), (1.5, 0), (0.75, 0.75 * _S3), (0.75, -2.7)],  # triangle + isolated
+        [(0, 0), (1.65, 0), (1.65, 1.65), (0, 1.65)],  # 4-cycle
+        [(0, 0), (-0.75, -0.75 * _S3), (0.75, -0.75 * _S3), (0, 1.5)],  # paw
+        [(0, 0), (1.4, 0), (0.7, 0.7 * _S3), (0.7, -0.7 * _S3)],  # diamond
+        [(0, 0), (1.1, 0), (1.1, 1.1), (0, 1.1)]],  # complete
+}
+
+
+def rotation(seed, d, tag):
+    a, b, c = (3.0 * (1.0 + A.jitter(seed, f"c11rot{tag}", k, 0.9)) for k in range(3))
+    if d == 2:
+        return np.array([[np.cos(a), -np.sin(a)], [np.sin(a), np.cos(a)]])
+    Rz = lambda t: np.array([[np.cos(t), -np.sin(t), 0], [np.sin(t), np.cos(t), 0], [0, 0, 1.0]])
+    Rx = lambda t: np.array([[1.0, 0, 0], [0, np.cos(t), -np.sin(t)], [0, np.sin(t), np.cos(t)]])
+    return Rz(a) @ Rx(b) @ Rz(c)
 
 
 @lru_cache(maxsize=None)
 def placements(seed, d, n, mask, cell):
-    """dict labelled-graph (tuple of 0/1 per pair i<j) -> positions realising it, for ALL graphs on n vertices:
-    the first candidate (and label permutation) realising each graph, with every pair distance outside BAND."""
+    """dict labelled-graph (tuple of 0/1 per pair i<j) -> positions realising it, for ALL 2^(n(n-1)/2) graphs on n vertices.
+    Each isomorphism class has a planar template; it is jittered (table selected by the seed), rotated generically (in 3D
+    out of the plane, so every bond has all components non-zero), centred on the cell corner along periodic axes (contacts
+    through the faces) and on the cell centre along non-periodic axes, wrapped into the cell, then relabelled in all n! ways.
+    Every pair distance is verified to lie outside BAND (contact graph independent of the species)."""
     ppp = np.array(mask)
     E = edges_of(n)
-    want = 2 ** len(E)
-    found = {}
     H = cell_for(d, cell)
-    for t in range(40000):
-        pos, _ = candidate(seed, d, n, cell, t)
-        con = {}
-        good = True
-        for i, j in E:
-            raw = (pos[i] - pos[j])[None, :]
-            v = minimg(raw, H, ppp)[0]
-            r = float(np.linalg.norm(v))
-            if r < 0.7 or BAND[0] <= r <= BAND[1] or (r < BAND[0] and np.abs(v).min() < 0.05) or frac_tie_margin(raw, H, ppp) < 1e-3:
-                good = False
+    found = {}
+    for k, tpl in enumerate(TEMPLATES[n]):
+        for attempt in range(60):
+            tag = f"{d}{n}{k}_{attempt}"
+            base = np.zeros((n, d))
+            for i, p in enumerate(tpl):
+                base[i, :2] = p
+                for ax in range(d):
+                    base[i, ax] += A.jitter(seed, f"c11p{tag}_{i}", ax, 0.03 if ax < 2 else 0.25)
+            base -= base.mean(axis=0)
+            r = base @ rotation(seed, d, tag).T
+            s = np.linalg.solve(H.T, r.T).T + np.where(ppp == 1, 0.0, 0.5)
+            s = s - np.floor(s)
+            pos = s @ H
+            con = {}
+            good = True
+            for i, j in E:
+                raw = (pos[i] - pos[j])[None, :]
+                v = minimg(raw, H, ppp)[0]
+                rr = float(np.linalg.norm(v))
+                if rr < 0.7 or BAND[0] - 0.02 <= rr <= BAND[1] + 0.02 or (rr < BAND[0] and np.abs(v).min() < 0.05) \
+                        or frac_tie_margin(raw, H, ppp) < 1e-3:
+                    good = False
+                    break
+                con[(i, j)] = con[(j, i)] = int(rr < BAND[0])
+                if con[(i, j)] != int(np.hypot(tpl[i][0] - tpl[j][0], tpl[i][1] - tpl[j][1]) < BAND[0]):
+                    good = False  # an unintended contact through a periodic image: try the next orientation
+                    break
+            if good:
                 break
-            con[(i, j)] = con[(j, i)] = int(r < BAND[0])
-        if not good:
-            continue
+        else:
+            raise RuntimeError(f"C11: template {k} for n={n} d={d} mask={mask} cell={cell} has no admissible orientation")
         for perm in itertools.permutations(range(n)):
             g = tuple(con[(perm[i], perm[j])] for i, j in E)
             if g not in found:
-                found[g] = [pos[k].tolist() for k in perm]
-        if len(found) == want:
-            break
-    if len(found) != want:
-        raise RuntimeError(f"C11: only {len(found)}/{want} contact graphs realised for d={d} n={n} mask={mask} cell={cell}")
+                found[g] = [pos[q].tolist() for q in perm]
+    if len(found) != 2 ** len(E):
+        raise RuntimeError(f"C11: only {len(found)}/{2 ** len(E)} contact graphs realised for d={d} n={n} mask={mask} cell={cell}")
     return found, H.tolist()
 
 
@@ -144,7 +181,7 @@ def gen_matrix(tier, seed):
     if tier == "thorough":
         plan = [(2, 2, "orth", None), (3, 2, "orth", None), (2, 3, "orth", None), (3, 3, "orth", None),
                 (2, 2, "tri", None), (3, 2, "tri", None), (2, 3, "tri", None), (3, 3, "tri", None),
-                (2, 4, "orth", 2), (3, 4, "orth", 2), (3, 4, "tri", 1)]
+                (2, 4, "orth", None), (3, 4, "orth", None), (2, 4, "tri", 1), (3, 4, "tri", 1)]
     for (d, n, cell, maxdev) in plan:
         pots = POTS if n < 4 else POTS[:4]
         for (mask, ip, im, shift) in option_vectors(d, pots, maxdev):
@@ -209,11 +246,12 @@ def run(case):
     else:
         eps_in = eps.copy()
     unequal = masses[1] != masses[2]
-    sg = {"slice": case["slice"], "d": d, "model": model, "shift": shift, "unequal_masses": unequal,
-          "masked": bool((ppp == 0).any()), "cell": case["cell"], "eps_dtype": "int" if case["eps_int"] else "float"}
+    sg = {"d": d, "model": model, "unequal_masses": unequal, "eps_dtype": "int" if case["eps_int"] else "float"}
 
     # screening of discrete decisions (never triggers for the searched placements; kept as a guard)
     pl = HV.pair_list(pos, H, ppp, types, rc)
+    if case["graph"] is not None and [int(p["inside"]) for p in pl] != list(case["graph"]):
+        raise AssertionError("generator error: placement does not realise the announced contact graph")
     if any(p["margin"] < 1e-3 for p in pl) or frac_tie_margin(np.array([pos[p["i"]] - pos[p["j"]] for p in pl]), H, ppp) < 1e-6:
         return R.screen()
 
@@ -275,18 +313,21 @@ def run(case):
                 R.fail(f"H.(sqrt(m) x e_{a}) = {np.abs(res).max():.3g} (scale {scale:.3g}): mass-weighted translation not annihilated",
                        sig=dict(sg, clause="translations"), sub="C11.translations")
                 break
-    # --- C11.omega: sqrt of the eigenvalues of the saved matrix (ascending, as numpy returns them)
+    # --- C11.omega: the frequencies are the square roots of the eigenvalues of the saved matrix.  Mode k of the table
+    # belongs to column k of the saved eigenvectors; no particular order of the modes is demanded.
     lam = np.linalg.eigvalsh(0.5 * (M + M.T))
     om = tab["omega"].values.astype(float)
-    pos_ev = lam > 1e-7 * scale
-    if not np.isfinite(om).all() or np.abs(om[pos_ev] ** 2 - lam[pos_ev]).max(initial=0.0) > 1e-9 * scale:
+    ray = np.array([float(V[:, k] @ M @ V[:, k]) for k in range(nd)])  # eigenvalue of column k
+    if np.abs(M @ V - V * ray[None, :]).max() > 1e-8 * scale or np.abs(V.T @ V - np.eye(nd)).max() > 1e-9:
+        R.fail("saved eigenvectors are not orthonormal eigenvectors of the saved matrix", sig=dict(sg, clause="evecs"), sub="C11.omega")
+    elif np.abs(np.sort(ray) - lam).max() > 1e-9 * scale:
+        R.fail("the modes do not carry each eigenvalue of the saved matrix once", sig=dict(sg, clause="spectrum"), exp=lam, obs=np.sort(ray), sub="C11.omega")
+    pos_ev = ray > 1e-7 * scale
+    if not np.isfinite(om).all() or np.abs(om[pos_ev] ** 2 - ray[pos_ev]).max(initial=0.0) > 1e-9 * scale:
         R.fail("omega != sqrt(eigenvalue of the saved matrix) for a positive eigenvalue", sig=dict(sg, clause="omega"),
-               exp=np.sqrt(lam[pos_ev]), obs=om[pos_ev], sub="C11.omega")
-    if (om[pos_ev] <= 0).any():
+               exp=np.sqrt(ray[pos_ev]), obs=om[pos_ev], sub="C11.omega")
+    elif (om[pos_ev] <= 0).any():
         R.fail("omega of a positive eigenvalue is not positive", sig=dict(sg, clause="omega_sign"), sub="C11.omega")
-    # the saved eigenvectors belong to those eigenvalues and are orthonormal
-    if np.abs(M @ V - V * lam[None, :]).max() > 1e-8 * scale or np.abs(V.T @ V - np.eye(nd)).max() > 1e-9:
-        R.fail("saved eigenvectors are not orthonormal eigenvectors of the saved matrix (ascending order)", sig=dict(sg, clause="evecs"), sub="C11.omega")
     # --- C11.pr
     prv = tab["PR"].values.astype(float)
     prref = np.array([HV.ref_pr(V[:, k].reshape(n, d)) for k in range(nd)])
@@ -307,11 +348,11 @@ def subs(tier, seed):
     q = tier == "quick"
     return [
         Sub("C11.matrix", gen_matrix, run,
-            rule="placements realising EVERY labelled contact graph on N vertices (first hit in a deterministic candidate sequence of "
-                 "generic clusters around the cell corner / centre; per mask and cell) x all type maps {1,2}^N x potentials "
+            rule="placements realising EVERY labelled contact graph on N vertices (one jittered, generically rotated template per "
+                 "isomorphism class, all relabellings, straddling the periodic faces; per mask and cell) x all type maps {1,2}^N x potentials "
                  "(LJ, IPL n in {6,10,12.5} x A in {1,2.5}, Hertz alpha in {2,2.5}) x masses {equal, 1:3} x shift on/off x all masks; "
                  + ("N=2,3 full product in orthogonal cells, triclinic with <=1 option deviation"
-                    if q else "N=2,3 full product in orthogonal and triclinic cells; N=4 (64 graphs x 16 type maps, 4 potentials) with <=2 option deviations")
+                    if q else "N=2,3 full product in orthogonal and triclinic cells; N=4 (64 graphs x 16 type maps, 4 potentials) full product in orthogonal cells, <=1 option deviation in triclinic cells")
                  + "; every entry of the saved matrix vs hyper-dual and finite-difference second derivatives of the total energy, "
                    "symmetry, translations, omega, eigenvectors, PR; non-trivial = at least one interacting pair",
             bounds={"N": [2, 3] if q else [2, 3, 4], "d": [2, 3], "potentials": len(POTS), "masses": 2, "shift": 2,
